@@ -1,13 +1,20 @@
 """C16, session family: histories of calls on QuickShift estimator objects that SHARE caller-owned
 arrays (cut-off arrays handed to several constructors, data refitted, weights rewritten in place,
-gabriel_shell reassigned, rejected constructor / rejected fit in between).
+set_params on the public constructor parameters -- metric_params / cell, gabriel_shell,
+dist_cutoff_sq, scale -- between construction and fit, rejected constructor / rejected fit).
 
-Model: coq/Model/QSSession.v (`qrun`), theorems C16_session_* (a fit after any history is the
-fresh fit for the caller's ORIGINAL cut-offs times scale^2; no call writes the caller's arrays;
-rejected calls leave the state alone).  The implementation's trace (dist_cutoff_sq attribute after
-each construction, labels_/cluster_centers_idx_ after each fit, labels_ at each read, raised or
-not) is compared with the model's trace with `=` inside Coq; every mismatching session is then
-examined step by step by the Python oracle with the pristine caller values.
+Model: coq/Model/QSSession.v (`qrun`), theorems C16_session_* (fit reads every hyper-parameter in
+force when it runs; a fit after any history is the fresh fit for them; no call writes the caller's
+arrays; rejected calls leave the state alone).  The implementation's trace (dist_cutoff_sq
+attribute after each construction / set_params(dist_cutoff_sq), labels_/cluster_centers_idx_ after
+each fit, labels_ at each read, raised or not) is compared with the model's trace with `=` inside
+Coq; every mismatching session is then examined step by step by the Python oracle with the pristine
+caller values.
+
+The distance matrices handed to the model come from the PUBLIC metric function called with the
+cell the caller has configured (periodic_pairwise_euclidean_distances(X, X, squared=True,
+cell_length=<cell in force>)), not from the estimator's closure; the closure's own matrix
+(est.metric(X, X) just before fit) must be bitwise the same.
 
 Exactness: cut-offs k + 1/8, scale in {1/2, 1, 3/2, 2, 3}: cut-off * scale^2 is a multiple of 1/32
 well below 2^53, so the attribute must equal the model's integer (units of 1/32) exactly.
@@ -28,31 +35,32 @@ def gen_session(rng, quick, P):
     """P: the c16 module (gen_points, exact_d2, gabriel_exact)."""
     nmax = rng.randint(2, 9 if quick else 14)
     d = rng.randint(1, 3)
-    cell = None
     ndata = rng.randint(1, 3)
     data = []
     for k in range(ndata):
         n = nmax if rng.random() < 0.5 else rng.randint(1, nmax)
         dim = d
         if k > 0 and rng.random() < 0.15:
-            dim = d + 1                      # with a cell: fit must reject it; without: just other data
+            dim = d + 1                      # under a cell: fit must reject it; without: just other data
         fam = rng.choice(["tiny", "medium", "large", "large", "collinear", "dups"])
         X = P.gen_points(rng, n, dim, fam)
         w = rng.sample(range(-30, 30 + n), n)
         data.append(dict(n=n, dim=dim, X=X, w=w))
-    if rng.random() < 0.35:
-        span = 1 + max(abs(v) for q in data for r in q["X"] for v in r)
-        cell = [rng.randint(2, 2 * span + 3) for _ in range(d)]
+    r = rng.random()
+    ncell = 0 if r < 0.3 else (1 if r < 0.7 else 2)
+    span = 1 + max(abs(v) for q in data for row in q["X"] for v in row)
+    cells = [[rng.randint(2, 2 * span + 3) for _ in range(d)] for _ in range(ncell)]
     # right-angle ties under a cell are decided by float noise: such sessions use the cut-off rule only
     allow_gab = True
-    if cell is not None:
-        for q in data:
-            if q["dim"] == d and P.gabriel_exact(P.exact_d2(q["X"], cell), q["n"])[1]:
-                allow_gab = False
     diam = 1
     for q in data:
-        if cell is None or q["dim"] == d:
-            diam = max(diam, max(max(r) for r in P.exact_d2(q["X"], cell if q["dim"] == d else None)))
+        for cell in [None] + cells:
+            if cell is not None and q["dim"] != d:
+                continue
+            D = P.exact_d2(q["X"], cell)
+            diam = max(diam, max(max(row) for row in D))
+            if cell is not None and P.gabriel_exact(D, q["n"])[1]:
+                allow_gab = False
     ncut = rng.randint(1, 2)
     cuts = []
     for _ in range(ncut):
@@ -68,14 +76,17 @@ def gen_session(rng, quick, P):
                 k = diam * 9 + rng.randint(1, 5)
             arr.append(k + 0.125)
         cuts.append(arr)
-    # operations
+
+    def pick_cell():
+        return rng.randrange(ncell) if (ncell and rng.random() < 0.6) else None
+
     ops = []
     built = [False] * NEST
-    L = rng.randint(4, 9)
+    L = rng.randint(4, 10)
     while len(ops) < L:
         r = rng.random()
         e = rng.randrange(NEST)
-        if not any(built) or r < 0.28:
+        if not any(built) or r < 0.24:
             c = rng.randrange(ncut) if rng.random() < 0.7 else None
             sh = rng.choice([1, 2, 3, 4]) if (rng.random() < 0.35 and allow_gab) else None
             if c is None and sh is None:
@@ -83,33 +94,40 @@ def gen_session(rng, quick, P):
                     c = rng.randrange(ncut)          # otherwise: the rejected constructor call
                 else:
                     sh = rng.choice([1, 2, 3])
-            ops.append(dict(op="new", e=e, c=c, scale=rng.choice(SCALES), shell=sh))
+            ops.append(dict(op="new", e=e, c=c, scale=rng.choice(SCALES), shell=sh, cell=pick_cell()))
             if c is not None or sh is not None:
                 built[e] = True
-        elif r < 0.70:
-            if not built[e]:
-                e = built.index(True)
+            continue
+        if not built[e]:
+            e = built.index(True)
+        if r < 0.60:
             ops.append(dict(op="fit", e=e, d=rng.randrange(ndata)))
+        elif r < 0.66:
+            if allow_gab:
+                ops.append(dict(op="setshell", e=e, shell=rng.choice([1, 2, 3, 4]),
+                                via=rng.choice(["set_params", "attribute"])))
         elif r < 0.78:
-            if not built[e] or not allow_gab:
-                continue
-            ops.append(dict(op="setshell", e=e, shell=rng.choice([1, 2, 3, 4])))
-        elif r < 0.88:
+            ops.append(dict(op="setcell", e=e, cell=pick_cell()))
+        elif r < 0.84:
+            c = rng.randrange(ncut) if (rng.random() < 0.8 or not allow_gab) else None
+            ops.append(dict(op="setcut", e=e, c=c))
+        elif r < 0.87:
+            ops.append(dict(op="setscale", e=e, scale=rng.choice(SCALES)))
+        elif r < 0.93:
             q = rng.randrange(ndata)
             ops.append(dict(op="setw", d=q, w=rng.sample(range(-30, 30 + data[q]["n"]), data[q]["n"])))
         else:
-            if not built[e]:
-                continue
             ops.append(dict(op="read", e=e))
     if not any(o["op"] == "fit" for o in ops):
         ops.append(dict(op="fit", e=built.index(True), d=0))
-    return dict(session=True, d=d, cell=cell, data=data, cuts=cuts, ops=ops, nmax=nmax)
+    return dict(session=True, d=d, cells=cells, data=data, cuts=cuts, ops=ops, nmax=nmax)
 
 
 # ------------------------------------------------------------------------------ reference state
 def model_states(sess):
     """What the caller knows before each step: (estimator parameters, current weights), computed
-    from the PRISTINE values only.  est params: dict(c=index|None, scale, shell) or None."""
+    from the PRISTINE values only.  est params: dict(c=index|None, scale=<scale applied to cuts[c]>,
+    shell, cell=<cell in force>, cell0=<cell given to the constructor>) or None."""
     ests = [None] * NEST
     ws = [list(q["w"]) for q in sess["data"]]
     out = []
@@ -117,16 +135,28 @@ def model_states(sess):
         out.append(([None if x is None else dict(x) for x in ests], [list(w) for w in ws]))
         if o["op"] == "new":
             if o["c"] is not None or o["shell"] is not None:
-                ests[o["e"]] = dict(c=o["c"], scale=o["scale"], shell=o["shell"])
+                ests[o["e"]] = dict(c=o["c"], scale=o["scale"], shell=o["shell"], cell=o["cell"], cell0=o["cell"])
         elif o["op"] == "setshell":
             ests[o["e"]]["shell"] = o["shell"]
+        elif o["op"] == "setcell":
+            ests[o["e"]]["cell"] = o["cell"]
+        elif o["op"] == "setcut":
+            ests[o["e"]]["c"] = o["c"]
+            ests[o["e"]]["scale"] = 1.0          # set_params stores the array as given
         elif o["op"] == "setw":
             ws[o["d"]] = list(o["w"])
     return out
 
 
-def fit_rejected(sess, o):
-    return sess["cell"] is not None and sess["data"][o["d"]]["dim"] != sess["d"]
+def fit_expect(sess, p, o):
+    """'guard' (ValueError before anything is touched), 'norule' (no cut-offs and no shell: raises inside
+    the ascent) or None (fit must succeed)."""
+    dim = sess["data"][o["d"]]["dim"]
+    if (p["cell0"] is not None or p["cell"] is not None) and dim != sess["d"]:
+        return "guard"
+    if p["c"] is None and p["shell"] is None:
+        return "norule"
+    return None
 
 
 # ------------------------------------------------------------------------------ implementation
@@ -134,18 +164,20 @@ def run_session(sess):
     os.environ.setdefault("TQDM_DISABLE", "1")
     from skmatter.clustering import QuickShift
     from skmatter.clustering import _quick_shift as QSM
+    from skmatter.metrics import periodic_pairwise_euclidean_distances as ppd
     cut_arrs = [np.array(c, dtype=float) for c in sess["cuts"]]
     Xs = [np.array(q["X"], dtype=float).reshape(q["n"], q["dim"]) for q in sess["data"]]
     ws = [np.array(q["w"], dtype=float) for q in sess["data"]]
-    cell_arr = None if sess["cell"] is None else np.array(sess["cell"], dtype=float)
-    mp = None if cell_arr is None else {"cell_length": cell_arr}      # one dict shared by all estimators
+    cell_arrs = [np.array(c, dtype=float) for c in sess["cells"]]
+    mps = [{"cell_length": a} for a in cell_arrs]        # one dict per cell, shared by all constructors
+    states = model_states(sess)
     ests = [None] * NEST
     trace = []
-    for o in sess["ops"]:
+    for k, o in enumerate(sess["ops"]):
         rec = dict(op=o["op"])
         try:
             if o["op"] == "new":
-                kw = {} if mp is None else {"metric_params": mp}
+                kw = {} if o["cell"] is None else {"metric_params": mps[o["cell"]]}
                 est = QuickShift(dist_cutoff_sq=None if o["c"] is None else cut_arrs[o["c"]],
                                  gabriel_shell=o["shell"], scale=o["scale"], **kw)
                 ests[o["e"]] = est
@@ -154,11 +186,18 @@ def run_session(sess):
             elif o["op"] == "fit":
                 est = ests[o["e"]]
                 X, w = Xs[o["d"]], ws[o["d"]]
-                if not fit_rejected(sess, o):
-                    D = np.array(est.metric(X, X), dtype=float)
-                    rec["D"] = D.tolist()
-                    if est.dist_cutoff_sq is None:
-                        Df = D.copy()
+                p = states[k][0][o["e"]]
+                if fit_expect(sess, p, o) != "guard":
+                    cell = None if p["cell"] is None else cell_arrs[p["cell"]]
+                    Dd = np.array(ppd(X, X, squared=True, cell_length=cell), dtype=float)
+                    rec["D_direct"] = Dd.tolist()
+                    try:
+                        D = np.array(est.metric(X, X), dtype=float)
+                        rec["D"] = D.tolist()
+                    except Exception as ex:  # noqa
+                        rec["metric_error"] = "%s: %s" % (type(ex).__name__, str(ex)[:120])
+                    if p["c"] is None:
+                        Df = Dd.copy()
                         np.fill_diagonal(Df, np.inf)
                         rec["gabriel"] = QSM._get_gabriel_graph(Df).astype(int).tolist()
                 est.fit(X, samples_weight=w)
@@ -166,7 +205,19 @@ def run_session(sess):
                 rec["centres"] = [int(v) for v in est.cluster_centers_idx_]
                 rec["centre_points_ok"] = bool(np.array_equal(est.cluster_centers_, X[est.cluster_centers_idx_]))
             elif o["op"] == "setshell":
-                ests[o["e"]].gabriel_shell = o["shell"]
+                if o.get("via") == "attribute":
+                    ests[o["e"]].gabriel_shell = o["shell"]
+                else:
+                    ests[o["e"]].set_params(gabriel_shell=o["shell"])
+            elif o["op"] == "setcell":
+                ests[o["e"]].set_params(
+                    metric_params={"cell_length": None if o["cell"] is None else cell_arrs[o["cell"]]})
+            elif o["op"] == "setcut":
+                ests[o["e"]].set_params(dist_cutoff_sq=None if o["c"] is None else cut_arrs[o["c"]])
+                a = ests[o["e"]].dist_cutoff_sq
+                rec["cutattr"] = None if a is None else [float(v) for v in np.asarray(a, dtype=float)]
+            elif o["op"] == "setscale":
+                ests[o["e"]].set_params(scale=o["scale"])
             elif o["op"] == "setw":
                 ws[o["d"]][:] = np.array(o["w"], dtype=float)
             else:
@@ -185,8 +236,8 @@ def run_session(sess):
                 X_unchanged=all(np.array_equal(Xs[k], np.array(q["X"], dtype=float).reshape(q["n"], q["dim"]))
                                 for k, q in enumerate(sess["data"])),
                 w_unchanged=all(np.array_equal(ws[k], np.array(final_w[k], dtype=float)) for k in range(len(ws))),
-                cell_unchanged=cell_arr is None or (np.array_equal(cell_arr, np.array(sess["cell"], dtype=float))
-                                                    and list(mp.keys()) == ["cell_length"]))
+                cell_unchanged=all(np.array_equal(a, np.array(c, dtype=float)) and list(m.keys()) == ["cell_length"]
+                                   for a, c, m in zip(cell_arrs, sess["cells"], mps)))
 
 
 # ------------------------------------------------------------------------------ oracle
@@ -209,31 +260,46 @@ def oracle_session(sess, out, P):
             if o["c"] is not None:
                 want = [float(Fr(c) * Fr(o["scale"]) ** 2) for c in sess["cuts"][o["c"]]]
                 if rec["cutattr"] != want:
-                    earlier = any(p["op"] == "new" and p["c"] == o["c"] for p in sess["ops"][:k])
+                    earlier = any(p["op"] in ("new", "setcut") and p["c"] == o["c"] for p in sess["ops"][:k])
                     return k, ("effective cut-offs (dist_cutoff_sq attribute) of the estimator built at step %d are not "
                                "the caller's dist_cutoff_sq * scale**2%s" % (k, " (the same cut-off array was handed to "
                                                                              "an earlier constructor)" if earlier else ""))
             elif rec["cutattr"] is not None:
                 return k, "dist_cutoff_sq attribute set although None was given"
+        elif o["op"] == "setcut":
+            if err:
+                return k, "set_params(dist_cutoff_sq=...) raised %s: %s" % (err, rec.get("error_msg"))
+            want = None if o["c"] is None else [float(v) for v in sess["cuts"][o["c"]]]
+            if rec["cutattr"] != want:
+                return k, "dist_cutoff_sq after set_params at step %d is not the array that was given" % k
         elif o["op"] == "fit":
-            if fit_rejected(sess, o):
+            p = ests[o["e"]]
+            exp = fit_expect(sess, p, o)
+            if exp:
                 if not err:
-                    return k, "fit accepted data whose dimension differs from the cell's"
+                    return k, ("fit accepted data whose dimension differs from the cell's" if exp == "guard" else
+                               "fit ran although neither cut-offs nor gabriel_shell are set")
                 continue
             if err:
                 return k, "fit raised %s: %s" % (err, rec.get("error_msg"))
-            p = ests[o["e"]]
             q = sess["data"][o["d"]]
-            case = dict(n=q["n"], d=q["dim"], X=q["X"], w=ws[o["d"]], cell=sess["cell"])
+            cell = None if p["cell"] is None else sess["cells"][p["cell"]]
+            case = dict(n=q["n"], d=q["dim"], X=q["X"], w=ws[o["d"]], cell=cell)
             if p["c"] is not None:
                 case.update(mode="cut", cuts=sess["cuts"][p["c"]][:q["n"]], scale=p["scale"])
             else:
                 case.update(mode="gabriel", shell=p["shell"])
-                if "gabriel" not in rec:
-                    return k, "estimator built without cut-offs carries a dist_cutoff_sq attribute at fit time"
+            if "D" not in rec:
+                return k, "the estimator's metric raised %s with the cell configured at step %d" % (rec.get("metric_error"), k)
             msg = P.oracle(case, rec)
             if msg:
-                return k, "fit at step %d of the history: %s" % (k, msg)
+                how = ""
+                if p["cell"] != p["cell0"]:
+                    how = " (cell_length given through set_params(metric_params=...) after construction)"
+                return k, "fit at step %d of the history%s: %s" % (k, how, msg)
+            if rec["D"] != rec["D_direct"]:
+                return k, ("fit at step %d: the estimator's metric closure does not return the distances of the metric "
+                           "with the cell in force" % k)
             last_fit[o["e"]] = rec["labels"]
         elif o["op"] == "read":
             if err:
@@ -270,47 +336,65 @@ def _olab(labels):
     return "(map Some %s)" % C.natlist(labels)
 
 
+def _onat(v):
+    return "None" if v is None else "(Some %d%%nat)" % v
+
+
 def session_coq(sess, out):
     """Coq term `session_ok ...` or raises NotExact (the session is then a mismatch by itself)."""
-    # distance matrix per data set: the implementation's own, snapped to integers, identical at every fit
+    # distance matrix per (data set, cell in force): the public metric's, snapped to integers, identical at
+    # every fit; the estimator's own closure must return the very same matrix
+    states = model_states(sess)
     Dm = {}
-    for o, rec in zip(sess["ops"], out["trace"]):
-        if o["op"] == "fit" and "D" in rec:
-            D = np.array(rec["D"])
+    for k, (o, rec) in enumerate(zip(sess["ops"], out["trace"])):
+        if o["op"] == "fit" and "D_direct" in rec:
+            D = np.array(rec["D_direct"])
             if not np.all(np.abs(D - np.rint(D)) <= 1e-9 * np.maximum(1, np.abs(D))):
                 raise NotExact("squared distances are not integers")
+            if rec.get("D") != rec["D_direct"]:
+                raise NotExact("the estimator's metric closure and the metric with the cell in force differ")
             Di = np.rint(D).astype(int).tolist()
-            if o["d"] in Dm and Dm[o["d"]] != Di:
-                raise NotExact("distance matrix of the same data differs between two fits")
-            Dm[o["d"]] = Di
+            key = (o["d"], states[k][0][o["e"]]["cell"])
+            if key in Dm and Dm[key] != Di:
+                raise NotExact("distance matrix of the same data and cell differs between two fits")
+            Dm[key] = Di
     datas = []
     for k, q in enumerate(sess["data"]):
         n = q["n"]
-        if k in Dm:
-            D = "[" + "; ".join("[" + "; ".join("None" if i == j else "Some %d" % Dm[k][i][j] for j in range(n)) + "]"
-                                for i in range(n)) + "]"
-        else:
-            D = "[]"
-        datas.append("mkData %d%%nat %s %s" % (q["dim"], D, C.zlist(q["w"])))
-    S0 = "(mkState [%s] [%s] [%s])" % ("; ".join(C.zlist(_ints(c, 8, "cut-off")) for c in sess["cuts"]),
-                                       "; ".join(datas), "; ".join(["no_est"] * NEST))
+        mats = []
+        for cell in [None] + list(range(len(sess["cells"]))):
+            if (k, cell) in Dm:
+                M = Dm[(k, cell)]
+                mats.append("[" + "; ".join("[" + "; ".join("None" if i == j else "Some %d" % M[i][j] for j in range(n)) + "]"
+                                            for i in range(n)) + "]")
+            else:
+                mats.append("[]")
+        datas.append("mkData %d%%nat [%s] %s" % (q["dim"], "; ".join(mats), C.zlist(q["w"])))
+    S0 = "(mkState [%s] %s [%s] [%s])" % ("; ".join(C.zlist(_ints(c, 8, "cut-off")) for c in sess["cuts"]),
+                                          C.natlist([len(c) for c in sess["cells"]]),
+                                          "; ".join(datas), "; ".join(["no_est"] * NEST))
     ops, trace = [], []
     for o, rec in zip(sess["ops"], out["trace"]):
         if o["op"] == "new":
-            ops.append("New %d%%nat %s %s %s" % (o["e"], "None" if o["c"] is None else "(Some %d%%nat)" % o["c"],
-                                                 C.Zl(int(o["scale"] * 2)),
-                                                 "None" if o["shell"] is None else "(Some %d%%nat)" % o["shell"]))
+            ops.append("New %d%%nat %s %s %s %s" % (o["e"], _onat(o["c"]), C.Zl(int(o["scale"] * 2)),
+                                                    _onat(o["shell"]), _onat(o["cell"])))
         elif o["op"] == "fit":
             ops.append("Fit %d%%nat %d%%nat" % (o["e"], o["d"]))
         elif o["op"] == "setshell":
             ops.append("SetShell %d%%nat %d%%nat" % (o["e"], o["shell"]))
+        elif o["op"] == "setcell":
+            ops.append("SetCell %d%%nat %s" % (o["e"], _onat(o["cell"])))
+        elif o["op"] == "setcut":
+            ops.append("SetCut %d%%nat %s" % (o["e"], _onat(o["c"])))
+        elif o["op"] == "setscale":
+            ops.append("SetScale %d%%nat %s" % (o["e"], C.Zl(int(o["scale"] * 2))))
         elif o["op"] == "setw":
             ops.append("SetW %d%%nat %s" % (o["d"], C.zlist(o["w"])))
         else:
             ops.append("Read %d%%nat" % o["e"])
         if "error" in rec:
             trace.append("ObsErr")
-        elif o["op"] == "new":
+        elif o["op"] in ("new", "setcut"):
             trace.append("ObsNew None" if rec["cutattr"] is None else
                          "ObsNew (Some %s)" % C.zlist(_ints(rec["cutattr"], 32, "dist_cutoff_sq attribute")))
         elif o["op"] == "fit":
@@ -319,17 +403,19 @@ def session_coq(sess, out):
             trace.append("ObsRead None" if rec["labels"] is None else "ObsRead (Some %s)" % _olab(rec["labels"]))
         else:
             trace.append("ObsUnit")
-    cd = "None" if sess["cell"] is None else "(Some %d%%nat)" % sess["d"]
     after = "[" + "; ".join(C.zlist(_ints(a, 8, "caller's cut-off after the session")) for a in out["cuts_after"]) + "]"
-    return "session_ok %s %s [%s] [%s] %s" % (cd, S0, "; ".join(ops), "; ".join(trace), after)
+    return "session_ok %s [%s] [%s] %s" % (S0, "; ".join(ops), "; ".join(trace), after)
 
 
 def features(sess, out):
     """measured: (fits, refits of an estimator object, constructions re-using a cut-off array that an earlier
-    constructor already received with scale != 1, rejected calls, distinct label vectors among fits)"""
+    constructor already received with scale != 1, rejected calls, distinct label vectors among fits,
+    fits under a cell that differs from the one given to the constructor)"""
+    states = model_states(sess)
     fits = sum(1 for o, r in zip(sess["ops"], out["trace"]) if o["op"] == "fit" and "labels" in r)
     per, used, reuse, rejected = {}, set(), 0, 0
     refits = 0
+    recell = 0
     obj = [0] * NEST
     for k, (o, r) in enumerate(zip(sess["ops"], out["trace"])):
         if "error" in r:
@@ -346,5 +432,7 @@ def features(sess, out):
             if key in per:
                 refits += 1
             per[key] = True
+            p = states[k][0][o["e"]]
+            recell += p["cell"] != p["cell0"]
     labs = set(tuple(r["labels"]) for o, r in zip(sess["ops"], out["trace"]) if o["op"] == "fit" and "labels" in r)
-    return fits, refits, reuse, rejected, len(labs)
+    return fits, refits, reuse, rejected, len(labs), recell
